@@ -92,6 +92,10 @@ def gen(rng, tier):
     if mode == "ok" and subspec.get("backward") is None and subcfg.get("unit_time", 1) == 1 and rng.random() < 0.15:
         a_ = rng.randint(0, 4)
         subspec["edit"] = rng.choice([[a_], [a_, a_ + 2], [a_ + 2, a_]])
+        if subcfg.get("absence") and rng.random() < 0.5:
+            # inserted steps around a step that is an absence step already
+            a_ = rng.choice(subcfg["absence"])
+            subspec["edit"] = rng.choice([[max(0, a_ - 1), a_ + 1], [a_, a_ + 1], [a_ + 1, a_], [a_ + 1, max(0, a_ - 1)]])
     if mode == "ok" and rng.random() < 0.12:
         extra["pause_json"] = rng.randint(1, 10)
     extra["pre_same"] = rng.random() < 0.5
